@@ -12,7 +12,10 @@ struct EarlyInit { EarlyInit(); };
 static EarlyInit g_early_init;
 #include "vrt_st.h"
 #include "gen_text.h"
+#include "gen_scale.h"
 #include <set>
+#include <functional>
+#include <type_traits>
 
 // default-constructed namespace-scope buffers are constant-initialised (constexpr buffer()): a value assigned to them during
 // static initialisation is still theirs when main() starts
@@ -65,6 +68,15 @@ struct Pool {
     Slot slots[N];
     std::string history;
     const char *tn = TN<T>::n();
+    // a moved-from object may report any value, but not an absurd one: nothing bigger than the largest value this pool has ever
+    // been given can come out of a move (100000 covers every length the short phases use; the scale phase raises it to the
+    // largest length in play, because a move assignment may legitimately leave the target's former - big - value in the source)
+    size_t sane_max = 100000;
+    // scale phase: where the lengths come from (the operations and the monitor are the ones every phase uses)
+    static const size_t NONE = static_cast<size_t>(-1);
+    std::function<size_t(Rng &)> len_fn;      // replaces the size classes around the small-buffer limit
+    size_t force_len = NONE;                  // scripted step: the next length asked for is exactly this
+    int force_fill = -1;                      // scripted step: 0 zero fill, 1 non-zero fill, 2 an element of the buffer itself
     // the small-buffer limit, from the object layout (not hard-coded)
     static size_t limit() { return (sizeof(B) - sizeof(T *) - sizeof(size_t)) / sizeof(T); }
 
@@ -112,7 +124,7 @@ struct Pool {
             const T *d = b.data();
             if (s.moved_from) {
                 // value unspecified but it must be a valid exclusive owner: adopt what it reports, then hold it to that
-                if (n > 100000) { fail("moved-from:absurd-size", i, sfmt("size=%zu after %s", n, after)); s.box = nullptr; continue; }
+                if (n > sane_max) { fail("moved-from:absurd-size", i, sfmt("size=%zu after %s", n, after)); s.box = nullptr; continue; }
             } else if (n != s.shadow.size()) {
                 fail("size-differs-from-model", i, sfmt("size()=%zu model=%zu after %s", n, s.shadow.size(), after));
                 continue;
@@ -140,8 +152,12 @@ struct Pool {
                 s.shadow.assign(d, n);
                 s.moved_from = false;
                 vrt::count("moved_from.adopted");
-            } else if (BS(d, n) != s.shadow) {
-                fail("content-differs-from-model", i, sfmt("got=%s model=%s after %s", vrt::hex(d, n, sizeof(T), 40).c_str(), vrt::hex(s.shadow.data(), s.shadow.size(), sizeof(T), 40).c_str(), after));
+            } else if (n && memcmp(d, s.shadow.data(), n * sizeof(T)) != 0) {      // (sizes are equal here) every element, whatever n is
+                size_t at = 0;
+                while (at < n && d[at] == s.shadow[at]) ++at;
+                const size_t lo = at > 8 ? at - 8 : 0, cnt = std::min<size_t>(n - lo, 24);
+                fail("content-differs-from-model", i, sfmt("size=%zu first difference at element %zu: got[%zu..]=%s model[%zu..]=%s after %s", n, at, lo, vrt::hex(d + lo, cnt, sizeof(T), 40).c_str(), lo,
+                                                           vrt::hex(s.shadow.data() + lo, cnt, sizeof(T), 40).c_str(), after));
             }
             if (d[n] != T()) fail("no-terminator", i, sfmt("size=%zu after %s", n, after));
         }
@@ -155,10 +171,30 @@ struct Pool {
     BS random_content(Rng &r, size_t len)
     {
         BS s(len, T());
+        if (len > 2048) {
+            // big values: a random tile (same element distribution as below) repeated with a period that is no power of two, so that
+            // a block copied to / from the wrong multiple of any block size does not land on equal elements, plus random elements at
+            // both ends and around the middle
+            static const size_t periods[] = {251, 509, 1021, 2039, 4093, 16381, 65521};
+            size_t np = 0;
+            while (np < sizeof(periods) / sizeof(periods[0]) && periods[np] < len) ++np;
+            const size_t P = periods[r.below(np)];
+            for (size_t i = 0; i < P; ++i) s[i] = static_cast<T>(r.chance(1, 10) ? 0 : 1 + r.below(sizeof(T) == 1 ? 126 : 0xD000));
+            for (size_t pos = P; pos < len; pos += P) memcpy(&s[pos], &s[0], std::min(P, len - pos) * sizeof(T));
+            const size_t marks[] = {0, 1, len / 2 - 1, len / 2, len - 2, len - 1};
+            for (size_t m : marks) s[m] = static_cast<T>(1 + r.below(sizeof(T) == 1 ? 126 : 0xD000));
+            return s;
+        }
         for (size_t i = 0; i < len; ++i) s[i] = static_cast<T>(r.chance(1, 10) ? 0 : 1 + r.below(sizeof(T) == 1 ? 126 : 0xD000));
         return s;
     }
     size_t random_len(Rng &r)
+    {
+        if (force_len != NONE) { const size_t n = force_len; force_len = NONE; return n; }
+        if (len_fn) return len_fn(r);
+        return class_len(r);
+    }
+    size_t class_len(Rng &r)
     {
         const size_t L = limit();
         const size_t cls[] = {0, 1, L - 1, L, L + 1, 3 * L, 1000, 2, L - 2, L + 2, 2 * L};
@@ -177,18 +213,32 @@ struct Pool {
 
     void step(Rng &r)
     {
-        char desc[160];
-        desc[0] = 0;
         const unsigned op = static_cast<unsigned>(r.below(20));
         size_t i = pick_live(r), j = pick_live(r), e = pick_empty(r);
+        do_op(r, op, i, j, e);
+    }
+    // one operation (numbered as in the switch) on live slots i, j / empty slot e (N = there is none), then the monitor
+    enum { OP_PTR_CTOR = 0, OP_DEFAULT_CTOR = 2, OP_FILL_CTOR = 3, OP_COPY_CTOR = 4, OP_MOVE_CTOR = 5, OP_COPY_ASSIGN = 6, OP_MOVE_ASSIGN = 8, OP_ALLOCATE = 10, OP_ALLOCATE_FILL = 12,
+           OP_CLEAR = 13, OP_DESTROY = 14, OP_ELEMENT_WRITE = 16, OP_READ = 17 };
+    T pick_fill(Rng &r)
+    {
+        T fill = r.chance(1, 5) ? T() : static_cast<T>(1 + r.below(100));        // a zero fill is a fill like any other
+        if (force_fill == 0) fill = T();
+        else if (force_fill == 1 && fill == T()) fill = static_cast<T>(7);
+        return fill;
+    }
+    void do_op(Rng &r, unsigned op, size_t i, size_t j, size_t e)
+    {
+        char desc[160];
+        desc[0] = 0;
         switch (op) {
         case 0: case 1:
             if (e < N) {
                 BS c = random_content(r, random_len(r));
                 vrt::Exact<T> src(c.data(), c.size());
                 construct(slots[e], src.data(), c.size());
-                slots[e].shadow = c;
                 snprintf(desc, sizeof(desc), "s%zu=B(ptr,%zu)", e, c.size());
+                slots[e].shadow = std::move(c);
             }
             break;
         case 2:
@@ -197,10 +247,10 @@ struct Pool {
         case 3:
             if (e < N) {
                 size_t n = random_len(r);
-                T fill = r.chance(1, 5) ? T() : static_cast<T>(1 + r.below(100));        // a zero fill is a fill like any other
+                T fill = pick_fill(r);
                 construct(slots[e], n, fill);
                 slots[e].shadow.assign(n, fill);
-                snprintf(desc, sizeof(desc), "s%zu=B(%zu,fill)", e, n);
+                snprintf(desc, sizeof(desc), "s%zu=B(%zu,fill %u)", e, n, static_cast<unsigned>(fill));
             }
             break;
         case 4:
@@ -224,6 +274,7 @@ struct Pool {
             if (i < N && j < N) {
                 { va::LibScope ls; **slots[i].box = static_cast<const B &>(**slots[j].box); }
                 snprintf(desc, sizeof(desc), "s%zu[%zu]=copy s%zu[%zu]", i, slots[i].shadow.size(), j, slots[j].shadow.size());
+                if (i != j && slots[i].shadow.size() == slots[j].shadow.size() && slots[j].shadow.size() >= 4096) vrt::count("scale.copy_assign_of_the_size_already_held");
                 slots[i].shadow = slots[j].shadow;
                 vrt::count(i == j ? "op.self_copy_assign" : "op.copy_assign");
             }
@@ -248,17 +299,19 @@ struct Pool {
                 BS c = random_content(r, n);
                 T *d = (*slots[i].box)->data();
                 for (size_t k = 0; k < n; ++k) d[k] = c[k];
-                slots[i].shadow = c;
+                slots[i].shadow = std::move(c);
                 snprintf(desc, sizeof(desc), "s%zu.allocate(%zu)+write", i, n);
                 vrt::count("op.allocate");
             }
             break;
         case 12:
             if (i < N) {
+                const size_t held = slots[i].shadow.size();
                 size_t n = random_len(r);
-                T fill = r.chance(1, 5) ? T() : static_cast<T>(1 + r.below(100));
-                const char *how = "fill";
-                if (!slots[i].shadow.empty() && r.chance(1, 3)) {
+                T fill = pick_fill(r);
+                const char *how = fill == T() ? "zero fill" : "fill";
+                if (n == held && n >= 4096) vrt::count("scale.allocate_fill_of_the_size_already_held");
+                if (!slots[i].shadow.empty() && (force_fill == 2 || (force_fill < 0 && r.chance(1, 3)))) {
                     // the fill argument is an element of the very buffer being re-allocated (b.allocate(n, b[0]), b.back(), ...)
                     B &b = **slots[i].box;
                     const size_t at = r.chance(1, 2) ? 0 : slots[i].shadow.size() - 1;
@@ -345,6 +398,8 @@ struct Pool {
             }
             break;
         }
+        force_len = NONE;
+        force_fill = -1;
         if (desc[0]) {
             { va::HarnessScope hs; if (history.size() < 1500) { history += desc; history += "; "; } }
             vrt::cur_printf("%s\n", desc);
@@ -421,6 +476,129 @@ static void histories()
     });
 }
 
+// ---- scale: the same pool, the same operations and the same monitor (every element of every live buffer against its shadow, the
+// ownership / registry classification, conservation) with element counts on and next to q * B for every block size B of
+// scale::blocks() and q in 1..8 - a few KiB up to 8 Mi elements.  Each case: fill construction and allocate(n, fill) at exactly
+// q * B (zero, non-zero and own-element fills), (pointer, length) construction, copies and moves between big buffers, assignment /
+// allocate of exactly the size the target already holds followed by clear / re-allocate of OTHER big buffers, clear / re-allocate
+// cycles while the other big buffers stay alive, random steps with lengths from {n, n +- a few, n / 2, 2 n, another boundary
+// length, the small classes}, and a long run of consecutive assignments on one object.
+template <typename T>
+static void scale_phase()
+{
+    typedef Pool<T> P;
+    const char *tn = TN<T>::n();
+    const std::string pn = std::string("scale_") + tn;
+    const std::vector<size_t> &BL = scale::blocks();
+    const size_t pairs = BL.size() * 8;
+    const size_t cap = vrt::opt().scale < 1.0 ? (static_cast<size_t>(128) << 10) : (static_cast<size_t>(8) << 20);
+    // element-steps one case may spend (every step compares every live element); the memcheck pass runs a scaled-down workload
+    const size_t budget = vrt::opt().scale < 1.0 ? (static_cast<size_t>(1) << 21) : (static_cast<size_t>(1) << 25);
+    vrt::require(std::string("scale.cases.") + tn, 32);
+    vrt::phase(pn.c_str(), vrt::tier_count(2 * pairs, 40 * pairs), [&](uint64_t idx, Rng &r) {
+        // (the grid is walked from a different starting point for every element type, so that the biggest cases of the four types
+        // do not all land on the same worker)
+        const uint64_t cell = (idx + 37 * sizeof(T) + 11 * static_cast<uint64_t>(std::is_same<T, wchar_t>::value)) % pairs;
+        const size_t B = BL[cell % BL.size()], q = 1 + (cell / BL.size()) % 8;
+        const size_t n = q * B;
+        if (n > cap) { vrt::count("scale.skipped_too_large"); return; }
+        {
+            P pool;
+            const size_t N = P::N;
+            const bool huge = n > (static_cast<size_t>(1) << 20);
+            pool.sane_max = std::max<size_t>(100000, 2 * n + 64);
+            const size_t n2 = scale::length(r, std::min<size_t>(n, 262144), 16);
+            const size_t near = ((idx / pairs + cell) & 1) ? n + 1 : n - 1;       // (the two passes over the grid of the quick tier take one neighbour each)
+            pool.len_fn = [&pool, n, n2, huge](Rng &rr) -> size_t {
+                switch (rr.below(10)) {
+                case 0: case 1: case 2: case 3: case 4: { const long v = static_cast<long>(n) + scale::nudge(rr); return v < 0 ? 0 : static_cast<size_t>(v); }
+                case 5: return n2;
+                case 6: return (huge || rr.chance(1, 2)) ? n / 2 : 2 * n;
+                default: return pool.class_len(rr);
+                }
+            };
+            auto fill_ctor = [&](size_t e, size_t len, int fill) { pool.force_len = len; pool.force_fill = fill; pool.do_op(r, P::OP_FILL_CTOR, N, N, e); };
+            auto ptr_ctor = [&](size_t e, size_t len) { pool.force_len = len; pool.do_op(r, P::OP_PTR_CTOR, N, N, e); };
+            auto allocate = [&](size_t i, size_t len) { pool.force_len = len; pool.do_op(r, P::OP_ALLOCATE, i, N, N); };
+            auto allocate_fill = [&](size_t i, size_t len, int fill) { pool.force_len = len; pool.force_fill = fill; pool.do_op(r, P::OP_ALLOCATE_FILL, i, N, N); };
+            auto op = [&](unsigned o, size_t i, size_t j, size_t e) { pool.do_op(r, o, i, j, e); };
+            auto big_alive = [&]() { size_t c = 0; for (auto &sl : pool.slots) c += sl.box && sl.shadow.size() + 1 >= 65536; return c; };
+
+            // -- scripted part: exactly q * B
+            fill_ctor(0, n, 1);                                       // B(n, c)
+            allocate_fill(0, n, r.chance(1, 2) ? 0 : 1);              // allocate(n, c) on a buffer that holds n elements already
+            fill_ctor(1, near, r.chance(1, 3) ? 0 : 1);
+            ptr_ctor(2, n);
+            op(P::OP_COPY_ASSIGN, 0, 2, N);                           // a value of exactly the size the target holds ...
+            op(P::OP_CLEAR, 1, N, N);                                 // ... then ANOTHER big buffer is cleared
+            allocate(1, n);                                           // ... and re-allocated (elements written by the caller)
+            op(P::OP_READ, 0, 2, N);
+            allocate_fill(1, n, 2);                                   // allocate(n, own element), again the size it holds
+            vrt::count("scale.fill_at_exact_multiple", 3);
+            if (big_alive() >= 3) vrt::count("scale.three_or_more_buffers>=64Ki_alive");
+            if (huge) op(P::OP_DESTROY, 2, N, N);                     // (tens of MiB each: at most three or four alive at a time)
+            op(P::OP_COPY_CTOR, N, 1, 3);
+            op(P::OP_MOVE_CTOR, N, 0, 4);
+            op(P::OP_MOVE_ASSIGN, 0, 3, N);                           // into the moved-from object
+            if (huge) op(P::OP_DESTROY, 1, N, N);
+            op(P::OP_COPY_ASSIGN, 3, 4, N);                           // into the object that was moved from by assignment
+            op(P::OP_ELEMENT_WRITE, 3, N, N);
+            op(P::OP_MOVE_ASSIGN, 0, 0, N);                           // self move
+            op(P::OP_COPY_ASSIGN, 4, 4, N);                           // self copy
+            op(P::OP_DESTROY, 3, N, N);
+            if (huge) op(P::OP_DEFAULT_CTOR, N, N, 1);
+
+            // -- clear / re-allocate cycles of one big buffer while the other big buffers are alive
+            const size_t cycles = huge ? 2 : std::max<size_t>(2, std::min<size_t>(24, budget / (8 * n)));
+            for (size_t c = 0; c < cycles; ++c) {
+                const size_t v = (c & 1) ? 4 : 1;
+                op(P::OP_CLEAR, v, N, N);
+                if (r.chance(1, 2)) { pool.force_len = r.chance(2, 3) ? n : near; pool.do_op(r, P::OP_ALLOCATE, v, N, N); }
+                else { pool.force_len = r.chance(2, 3) ? n : near; pool.do_op(r, P::OP_ALLOCATE_FILL, v, N, N); }
+                vrt::count("scale.clear_reallocate_cycles");
+            }
+
+            // -- random steps, lengths from len_fn
+            const size_t steps = huge ? 0 : std::min<size_t>(vrt::thorough() ? 150 : 80, budget / (8 * n));
+            for (size_t k = 0; k < steps; ++k) pool.step(r);
+            vrt::count("scale.random_steps", steps);
+
+            // -- many consecutive assignments on one object (slot 0): sources of exactly its size, one element more / fewer, small
+            for (size_t k = 0; k < N; ++k) if (pool.slots[k].box) op(P::OP_DESTROY, k, N, N);
+            op(P::OP_DEFAULT_CTOR, N, N, 0);
+            ptr_ctor(1, n);
+            fill_ctor(2, n, -1);
+            ptr_ctor(3, near);
+            pool.force_len = pool.class_len(r);
+            pool.do_op(r, P::OP_PTR_CTOR, N, N, 4);
+            const size_t run = huge ? 4 : std::max<size_t>(6, std::min<size_t>(vrt::thorough() ? 600 : 300, budget / (5 * n)));
+            for (size_t k = 0; k < run; ++k) {
+                const unsigned w = static_cast<unsigned>(r.below(20));
+                const size_t src = w < 8 ? 1 : w < 13 ? 2 : w < 16 ? 3 : 4;
+                if (w == 19) allocate_fill(0, n, -1);
+                else if (w == 18) op(P::OP_MOVE_ASSIGN, 0, 1 + r.below(4), N);
+                else op(P::OP_COPY_ASSIGN, 0, src, N);
+            }
+            vrt::count("scale.consecutive_assignments_on_one_object", run);
+            if (run >= 100) vrt::count("scale.runs_of_100_or_more_assignments");
+
+            vrt::distinct(vrt::fnv1a(pool.history.data(), pool.history.size(), vrt::fnv_u64(idx, vrt::fnv_str(tn))));
+            if (vrt::want_sample("scale") && n >= 65536)
+                vrt::sample("scale", sfmt("buffer<%s>: n = %zu x %zu elements (neighbour %zu, second length %zu), %zu clear/re-allocate cycles, %zu random steps, %zu consecutive assignments on one object | %s",
+                                          tn, q, B, near, n2, cycles, steps, run, pool.history.substr(0, 300).c_str()));
+        }
+        if (va::reg().live_lib != 0) {
+            vrt::violation(sfmt("C05:buffer<%s>:leak-at-quiescence", tn), sfmt("%zu library-owned blocks alive after all buffers were destroyed (scale, n=%zu)", va::reg().live_lib, n));
+            va::reg().live_lib = 0;
+        }
+        vrt::count(std::string("scale.cases.") + tn);
+        vrt::count("scale.cases");
+        if (n >= 65536) vrt::count("scale.elements>=64Ki");
+        if (n >= (1u << 20)) vrt::count("scale.elements>=1Mi");
+        if (n >= (4u << 20)) vrt::count("scale.elements>=4Mi");
+    });
+}
+
 static void body()
 {
     vrt::require("static_init.checks", 4);
@@ -465,6 +643,22 @@ static void body()
     histories<wchar_t>();
     histories<char16_t>();
     histories<char32_t>();
+
+    vrt::require("scale.cases", 64);
+    vrt::require("scale.fill_at_exact_multiple", 64);
+    vrt::require("scale.copy_assign_of_the_size_already_held", 64);
+    vrt::require("scale.allocate_fill_of_the_size_already_held", 64);
+    vrt::require("scale.clear_reallocate_cycles", 64);
+    vrt::require("scale.three_or_more_buffers>=64Ki_alive", 8);
+    vrt::require("scale.consecutive_assignments_on_one_object", 1000);
+    vrt::require("scale.runs_of_100_or_more_assignments", 16);
+    vrt::require("scale.elements>=64Ki", 8);
+    vrt::note("scale phases: element counts q x B (q = 1..8, B over the block sizes of rt/gen_scale.h: 16 .. 1 Mi incl. 255, 1000, 3 x 2^14, 65535) and their neighbours, up to 8 Mi elements, for every element type; "
+              "every live element is compared with the shadow after every step");
+    scale_phase<char>();
+    scale_phase<wchar_t>();
+    scale_phase<char16_t>();
+    scale_phase<char32_t>();
 }
 
 VRT_MAIN(body)
